@@ -430,6 +430,7 @@ def run(ctx, out, tier):
     else:
         out.inst("C18.detect", 0, 4)
     shared.sh_flags(ctx, out, "check-lua", "C18.flags")
+    asyncval.check_index_alignment(ctx, out, "C18.index", NAME)
     return meta()
 
 
